@@ -415,6 +415,18 @@ def _payload(m, lv, bi, b, payload, nprng):
                     if k != d:
                         t = t + (0.37 + 0.11 * k) * idx[k]
                 arr[..., f] = t
+            elif n in ("cix", "ciy", "ciz"):
+                # constant along direction d over the whole level (no box term), with +inf / -inf in some
+                # in-plane cells: interpolating between two equal samples must give that sample
+                d = "xyz".index(n[2])
+                t = 50.0 * (lv + 1)
+                h = 5 * lv
+                for k in range(nd):
+                    if k != d:
+                        t = t + (0.37 + 0.11 * k) * idx[k]
+                        h = h + (7 + 6 * k) * idx[k]
+                t = np.where(h % 11 == 0, np.inf, np.where(h % 11 == 1, -np.inf, t))
+                arr[..., f] = t
             elif n == "near":
                 arr[..., f] = 298.0 * (1.0 + 1e-7 * (nprng.random(b.shape) - 0.5))
             elif n == "lin":
